@@ -27,11 +27,22 @@ M_MB == << MD("m1", <<"x">>, {"seq", "par"}, { G("X", <<Par("x")>>) }, {}, 1),
 T_MB == { G("X", <<QI("q", 0)>>), G("m1", <<QI("q", 1)>>), G("m2", <<QI("q", 2), Let("a")>>), G("m3", <<RegA("q"), I2>>) }
 O_MB == { OSeq, OPar, OLoop(Let("b"), FALSE), OLoop(I2, TRUE), OSub(I1), OSub(I2) }
 
+\* (C) three levels of macro calls; the outer macros go on using their OWN parameters after the inner call returns,
+\* and every level binds the same parameter names to other values
+M_N3 == << MD("m1", <<"x">>, {"seq"}, { G("X", <<Par("x")>>) }, {}, 1),
+           MD("m2", <<"x", "y">>, {"seq"}, { G("m1", <<Par("y")>>), G("X", <<Par("x")>>) }, {}, 2),
+           MD("m3", <<"x", "y", "z">>, {"seq"}, { G("m2", <<Par("y"), Par("z")>>), G("X", <<Par("x")>>), G("R", <<Par("y"), Let("a")>>) }, {}, 2) >>
+T_N3 == { G("m3", <<QI("q", 0), QI("q", 1), QI("q", 2)>>), G("m2", <<QI("q", 2), QI("q", 0)>>), G("X", <<QI("q", 1)>>) }
+O_N3 == { OSeq }
+
 \* ---------------------------------------------------------------- C05: constants in every position
 H_L == { Hdr(<<DLet("a", I1), DLet("n", I3), DLet("f", F20)>>,
              <<DReg("q", Let("n")), DSlice("r", "q", Let("a"), Let("n"), None), DIndex("s", "q", Let("a"))>>, <<>>, <<>>),
          Hdr(<<DLet("a", I1), DLet("n", I3), DLet("f", F20)>>,
-             <<DReg("q", I3), DSlice("r", "q", None, None, Let("a")), DIndex("s", "r", I0)>>, <<>>, ExactGates) }
+             <<DReg("q", I3), DSlice("r", "q", None, None, Let("a")), DIndex("s", "r", I0)>>, <<>>, ExactGates),
+         \* an alias of an alias: the constant sits in the INNER link only, the outer links are all literal
+         Hdr(<<DLet("a", I1), DLet("n", I3), DLet("f", F20)>>,
+             <<DReg("q", NumI(4)), DSlice("w", "q", Let("a"), NumI(4), None), DSlice("r", "w", I0, I2, None), DIndex("s", "r", I1)>>, <<>>, <<>>) }
 M_L == << MD("m1", <<"x", "a">>, {"seq"},
              { G("R", <<Par("x"), Par("a")>>), G("X", <<Qb("q", Par("a"))>>), G("R", <<Par("x"), Let("n")>>) },
              { OLoop(Par("a"), FALSE) }, 2) >>
@@ -48,7 +59,10 @@ O_S == { OSeq, OPar, OLoop(I2, FALSE), OSub(I1), OSub(Let("b")) }
 H_A == { Hdr(<<DLet("a", I1)>>, <<DReg("q", I3), DSlice("r", "q", I1, I3, None), DIndex("s", "r", I1),
                                    DWhole("w", "r"), DSlice("t", "q", I2, I0, NumI(-1))>>, <<>>, <<>>),
          Hdr(<<DLet("a", I1)>>, <<DReg("q", I3), DSlice("r", "q", None, None, I2), DIndex("s", "q", Let("a")),
-                                   DWhole("w", "q"), DSlice("t", "r", Let("a"), I2, None)>>, <<>>, ExactGates) }
+                                   DWhole("w", "q"), DSlice("t", "r", Let("a"), I2, None)>>, <<>>, ExactGates),
+         \* the let sits in the innermost link only (u = q[a:4]); r, w, s, t are literal views of it
+         Hdr(<<DLet("a", I1)>>, <<DReg("q", NumI(4)), DSlice("u", "q", Let("a"), NumI(4), None), DSlice("r", "u", I0, I2, None),
+                                   DIndex("s", "r", I1), DWhole("w", "r"), DSlice("t", "u", I1, I0, NumI(-1))>>, <<>>, ExactGates) }
 M_A == << MD("m1", <<"x", "y">>, {"seq"}, { G("X", <<Par("x")>>), G("X", <<QI("r", 0)>>), G("X", <<Qb("w", Par("y"))>>), G("X", <<QAl("s")>>) }, {}, 2) >>
 T_A == { G("X", <<QI("r", 1)>>), G("X", <<QAl("s")>>), G("CX", <<QI("w", 0), QI("t", 0)>>), G("m1", <<QI("r", 0), I1>>),
          G("m1", <<QAl("s"), Let("a")>>), G("X", <<Qb("r", Let("a"))>>) }
@@ -58,7 +72,9 @@ O_A == { OSeq, OPar, OLoop(I2, FALSE), OSub(I1) }
 H_X == { Hdr(<<DLet("a", I1), DLet("n", I2)>>, <<DReg("q", I3), DSlice("r", "q", Let("a"), None, None)>>, <<>>, <<>>),
          Hdr(<<DLet("a", I1), DLet("n", I2)>>, <<DReg("q", I3), DSlice("r", "q", I0, Let("n"), None)>>, <<>>, ExactGates),
          \* a native table WITHOUT prepare_all / measure_all (expand_subcircuits has to make them up)
-         Hdr(<<DLet("a", I1), DLet("n", I2)>>, <<DReg("q", I3), DSlice("r", "q", I0, Let("n"), None)>>, <<>>, ActiveGates) }
+         Hdr(<<DLet("a", I1), DLet("n", I2)>>, <<DReg("q", I3), DSlice("r", "q", I0, Let("n"), None)>>, <<>>, ActiveGates),
+         \* r is a literal view of an alias bounded by a constant
+         Hdr(<<DLet("a", I1), DLet("n", I2)>>, <<DReg("q", I3), DSlice("w", "q", Let("a"), None, None), DSlice("r", "w", I0, I1, None)>>, <<>>, ExactGates) }
 M_X == << MD("m1", <<"x">>, {"seq"}, { G("X", <<Par("x")>>), G("X", <<QI("r", 0)>>) }, { OSub(I1), OLoop(Let("n"), FALSE) }, 1),
           MD("m2", <<"x", "y">>, {"seq", "par"}, { G("m1", <<Par("x")>>), G("R", <<Par("x"), Par("y")>>) }, { OSub(Par("y")) }, 1) >>
 T_X == { G("X", <<QI("r", 0)>>), G("m1", <<Qb("q", Let("a"))>>), G("m2", <<QI("q", 2), Let("n")>>),
@@ -113,6 +129,13 @@ T_G2 == { G("H", <<QI("q", 0)>>), G("H", <<QI("q", 2)>>), G("S", <<QI("q", 2)>>)
           G("CCX", <<QI("q", 1), QI("q", 2), QI("q", 0)>>), G("CR", <<QI("q", 0), QI("q", 2), Let("k")>>),
           G("R", <<QI("r", 0), I3>>) }
 O_G2 == { OSub(I1) }
+\* constants in every position that decides WHICH qubit or matrix a gate gets, executed under override dictionaries:
+\* w = q[k:4] is bounded by a constant, r and s are literal views of w, j is an index and a loop count, k an angle
+H_GO == { Hdr(<<DLet("k", I1), DLet("j", I2)>>, <<DReg("q", NumI(4)), DSlice("w", "q", Let("k"), NumI(4), None),
+                                                   DSlice("r", "w", I0, I2, None), DIndex("s", "r", I1)>>, <<>>, ExactGates) }
+T_GO == { G("X", <<QI("r", 0)>>), G("H", <<QAl("s")>>), G("CX", <<QI("r", 1), QI("q", 0)>>), G("R", <<QI("q", 0), Let("k")>>),
+          G("X", <<Qb("q", Let("j"))>>), G("CR", <<QI("w", 0), QI("w", 1), Let("j")>>), G("H", <<QI("q", 0)>>) }
+O_GO == { OSub(I1), OLoop(Let("j"), FALSE) }
 \* other register sizes: one qubit; four qubits (gates on the highest qubit and across the whole register; a program
 \* has a single fundamental register, JaqalParse!TwoRegisters)
 H_G1 == { Hdr(<<>>, <<DReg("q", I1)>>, <<>>, ExactGates) }
@@ -134,6 +157,7 @@ M_P == << MD("m", <<"x">>, {"seq"}, { G("X", <<Par("x")>>), G("CX", <<Par("x"), 
           MD("o", <<"x", "y", "z">>, {"seq"}, { G("m2", <<Par("y"), Par("z")>>) }, {}, 1) >>
 T_P == { G("X", <<QI("q", 0)>>), G("X", <<QI("q", 1)>>), G("CX", <<QI("q", 1), QI("q", 2)>>), G("X", <<QI("r", 0)>>),
          G("m", <<QI("q", 2)>>), G("I_X", <<QI("q", 0)>>), G("H", <<QI("r", 1)>>), G("nn", <<QI("q", 1), QI("q", 2)>>),
+         G("nn", <<QI("q", 2), QI("q", 1)>>),      \* the same macro again with other actual arguments
          G("o", <<QI("q", 0), QI("q", 1), QI("q", 2)>>) }
 O_P == { OSub(I1), OPar, OSeq }
 
@@ -153,11 +177,20 @@ T_R == { G("g", <<QI("q", 0), F15>>), G("g", <<QAl("s"), Let("y")>>), G("h", <<Q
          G("m", <<QI("q", 2), I2>>), G("k", <<FNEG, INEG, FBIG>>) }
 O_R == { OSeq, OPar, OLoop(Let("a"), FALSE), OLoop(I3, TRUE), OSub(I1), OSub(NumI(5)), OSub(Let("n")) }
 
+\* ---------------------------------------------------------------- C16: executable texts with loop counts at the edge
+\* (gate definitions come from the pulse fixture harness/pulses/vpulses.py through a usepulses statement)
+H_N == { Hdr(<<DLet("z", NumI(-2))>>, <<DReg("q", I2)>>, <<".vpulses">>, <<>>) }
+T_N == { G("prepare_all", <<>>), G("measure_all", <<>>), G("X", <<QI("q", 0)>>) }
+O_N == { OLoop(NumI(-1), FALSE), OLoop(Let("z"), FALSE), OLoop(I0, FALSE), OLoop(I2, FALSE), OSeq }
+
 \* ---------------------------------------------------------------- C19: alternating seq / par nestings
 H_T == { Hdr(<<DLet("a", I1)>>, <<DReg("q", NumI(5))>>, <<"mypulses.sub">>, <<>>) }
 T_T == { G("g", <<QI("q", 0)>>), G("g", <<QI("q", 1)>>), G("g", <<QI("q", 2)>>), G("h", <<QI("q", 3), Let("a")>>) }
 O_T == { OSeq, OPar, OLoop(I2, FALSE), OSub(I1) }
 O_TD == { OSeq, OPar }          \* deep alternating nestings (TLC simulation)
+\* loops below parallel blocks at every depth (all must be rejected), few gates
+T_TL == { G("g", <<QI("q", 0)>>), G("g", <<QI("q", 1)>>) }
+O_TL == { OSeq, OPar, OLoop(I2, FALSE) }
 
 \* ---------------------------------------------------------------- C17: programs expressible in all three front ends
 H_F == { Hdr(<<DLet("a", I2), DLet("__r0", I3), DLet("__c0", I1)>>, <<DReg("q", Let("__r0"))>>, <<>>, <<>>) }
@@ -179,7 +212,10 @@ H_V == { Hdr(VBase, <<VReg, DSlice("r", "q", I1, I3, None), DIndex("s", "q", I2)
          Hdr(VBase, <<VReg, DIndex("a", "q", I0)>>, <<>>, ExactGates),                        \* let / alias clash
          Hdr(VBase, <<DReg("q", Let("k")), DIndex("s", "q", I2)>>, <<>>, ExactGates),         \* let-sized register
          Hdr(VBase, <<VReg, DSlice("r", "q", I2, I0, NumI(-1))>>, <<>>, ExactGates),          \* descending slice (2 elements)
-         Hdr(VBase, <<VReg, DSlice("r", "q", I0, I3, I2)>>, <<>>, ExactGates) }               \* strided slice (2 elements)
+         Hdr(VBase, <<VReg, DSlice("r", "q", I0, I3, I2)>>, <<>>, ExactGates),                \* strided slice (2 elements)
+         \* literal-bounded aliases over a source whose size is a constant: an override can pull the source from under them
+         Hdr(VBase, <<DReg("q", Let("k")), DSlice("r", "q", I1, I3, None)>>, <<>>, ExactGates),
+         Hdr(VBase, <<VReg, DSlice("w", "q", I0, Let("k"), None), DSlice("r", "w", I1, I3, None)>>, <<>>, ExactGates) }
 \* macro w's register parameter q SHADOWS register q: "X q[2]" inside w is a different reference from "X q[2]" inside b
 M_V == << MD("m", <<"x", "p">>, {"seq"}, { G("X", <<Qb("q", Par("p"))>>), G("R", <<Par("x"), Par("p")>>) }, {}, 1),
           MD("b", <<>>, {"seq"}, { G("X", <<QI("q", 2)>>) }, {}, 1),
